@@ -48,7 +48,7 @@ class Exec:
         s.called = set(); s.path_samples = []; s.completed_models = []; s.keep_models = 0
         s.domain_checks = False; s.domain_issues = []; s.record_reads = False
         s.srt = z3.RealSort() if mode == 'real' else F64
-        s.deadline = None; s.fork_select = True; s.libm_axioms = True; s.libm_mono = True; s.ackermann = False; s.ack_vars = {}; s.ack_keep = []; s.vcache = {}; s.slicing = (mode == 'real')
+        s.deadline = None; s.fork_select = True; s.libm_axioms = True; s.libm_mono = True; s.div_as_mul = True; s.ackermann = False; s.ack_vars = {}; s.ack_keep = []; s.vcache = {}; s.slicing = (mode == 'real')
     # ------------------------------------------------------------ solver
     def vars_of(s, e):
         """uninterpreted constants and function symbols occurring in e (cached per AST id)"""
@@ -373,8 +373,8 @@ class Exec:
             if op == 'fsub': return ('f', X - Y)
             if op == 'fmul': return ('f', X * Y)
             if op == 'fdiv':
-                if isinstance(y, float): return ('f', X / Y)          # division by a constant stays linear
-                return ('f', X * (1 / Y))                             # x/y as x*(1/y): lets simplify() bring rational terms to one normal form
+                if isinstance(y, float) or not s.div_as_mul: return ('f', X / Y)          # division by a constant stays linear
+                return ('f', X * (1 / Y))                             # x/y as x*(1/y): lets simplify() bring rational terms to one normal form (per-obligation switch)
             raise Unsupported('frem in real mode')
         X, Y = s.fz(a), s.fz(b)
         if s.mode == 'fpa':          # every arithmetic result is arbitrary (sound over-approximation for safety/termination claims)
